@@ -55,6 +55,114 @@ def z3str_to_py(v) -> str:
 CVC5 = os.environ.get("SYMCURIE_CVC5", "cvc5")
 
 
+def free_vars(exprs):
+    """Uninterpreted constants occurring in the given z3 expressions."""
+    seen, out, stack = set(), {}, list(exprs)
+    while stack:
+        e = stack.pop()
+        i = e.get_id()
+        if i in seen:
+            continue
+        seen.add(i)
+        if z3.is_const(e):
+            if e.decl().kind() == z3.Z3_OP_UNINTERPRETED:
+                out[e.decl().name()] = e
+        else:
+            stack.extend(e.children())
+    return out
+
+
+class Z3Model:
+    def __init__(self, m):
+        self.m = m
+
+    def says(self, cond):
+        try:
+            v = z3.simplify(self.m.eval(cond, model_completion=True))
+        except z3.Z3Exception:
+            return None
+        return True if z3.is_true(v) else False if z3.is_false(v) else None
+
+    def value(self, var):
+        return self.m.eval(var, model_completion=True)
+
+
+def _default_value(sort):
+    if sort == z3.StringSort():
+        return z3.StringVal("")
+    if sort == z3.IntSort():
+        return z3.IntVal(0)
+    if sort == z3.BoolSort():
+        return z3.BoolVal(False)
+    return None
+
+
+class ValModel:
+    """A model given as constant values for variables (obtained from cvc5's get-value)."""
+
+    def __init__(self, vals):
+        self.vals = vals   # name -> z3 value term
+
+    def says(self, cond):
+        subs = []
+        for name, var in free_vars([cond]).items():
+            v = self.vals.get(name)
+            if v is None:
+                v = _default_value(var.sort())
+                if v is None:
+                    return None
+            subs.append((var, v))
+        try:
+            r = z3.simplify(z3.substitute(cond, *subs)) if subs else z3.simplify(cond)
+        except z3.Z3Exception:
+            return None
+        return True if z3.is_true(r) else False if z3.is_false(r) else None
+
+    def value(self, var):
+        v = self.vals.get(var.decl().name())
+        return v if v is not None else _default_value(var.sort())
+
+
+_TOK = _re.compile(r'"(?:[^"]|"")*"|[()]|[^\s()"]+')
+
+
+def parse_get_value(text, vars_by_name):
+    """Parse cvc5's `((x "abc") (n 5) (b true) (m (- 3)))` into name -> z3 value."""
+    toks = _TOK.findall(text)
+    vals, i = {}, 0
+
+    def read(i):
+        if toks[i] == "(":
+            items, i = [], i + 1
+            while toks[i] != ")":
+                it, i = read(i)
+                items.append(it)
+            return items, i + 1
+        return toks[i], i + 1
+    while i < len(toks):
+        tree, i = read(i)
+        for pair in tree if isinstance(tree, list) else []:
+            if not (isinstance(pair, list) and len(pair) == 2 and isinstance(pair[0], str)):
+                continue
+            name, val = pair
+            name = name[1:-1] if name.startswith("|") else name
+            var = vars_by_name.get(name)
+            if var is None:
+                continue
+            srt = var.sort()
+            if srt == z3.StringSort() and isinstance(val, str) and val.startswith('"'):
+                body = val[1:-1].replace('""', '"')
+                vals[name] = z3.StringVal(_ESC.sub(lambda m: chr(int(m.group(1), 16)), body))
+            elif srt == z3.IntSort():
+                if isinstance(val, list) and len(val) == 2 and val[0] == "-":
+                    vals[name] = z3.IntVal(-int(val[1]))
+                elif isinstance(val, str) and val.lstrip("-").isdigit():
+                    vals[name] = z3.IntVal(int(val))
+            elif srt == z3.BoolSort() and val in ("true", "false"):
+                vals[name] = z3.BoolVal(val == "true")
+    return vals
+
+
 class Engine:
     """Symbolic engine: DFS over branch decisions by re-execution with a decision trail."""
 
@@ -77,6 +185,7 @@ class Engine:
         self.frontier = []
         self.path_log = []      # (outcome, trail decisions, pc) for sampled differential replay
         self.keep_paths = 0
+        self.cvc5_streak = 0
 
     # ---------------------------------------------------------------- solver portfolio
     def _solve(self, assertions, want_model=True):
@@ -87,20 +196,24 @@ class Engine:
         t0 = time.time()
         r, m = "unknown", None
         plan = [(self.seed, self.fast_ms), ("cvc5", 10), (self.seed + 1, self.fast_ms * 4),
-                (self.seed + 2, self.timeout_ms), (self.seed + 3, self.timeout_ms)]
+                (self.seed + 2, self.timeout_ms), ("cvc5", 40), (self.seed + 3, self.timeout_ms)]
+        if self.cvc5_streak >= 2:
+            # z3's quick attempt keeps failing where cvc5 answers at once: ask cvc5 first for a while
+            plan = [("cvc5", 5)] + plan
         for k, (seed, to) in enumerate(plan):
             if seed == "cvc5":
-                out = self._cvc5(assertions, to)
+                out, vals = self._cvc5(assertions, to, want_model)
                 self.stats["cvc5"] += 1
                 if out == "unsat":
                     r, m = "unsat", None
+                    self.cvc5_streak += 1
                     break
-                # cvc5 "sat" carries no model we can use for model carrying; keep looking with z3
-                # but remember the answer in case z3 keeps timing out.
-                if out == "sat" and not want_model:
-                    r, m = "sat", None
+                if out == "sat":
+                    r, m = "sat", (ValModel(vals) if vals is not None else None)
+                    self.stats["cvc5_sat"] = self.stats.get("cvc5_sat", 0) + 1
+                    self.cvc5_streak += 1
                     break
-                cvc5_sat = out == "sat"
+                self.cvc5_streak = 0
                 continue
             s = z3.Solver()
             s.set("timeout", to)
@@ -110,14 +223,13 @@ class Engine:
             if k:
                 self.stats["retries"] += 1
             if res == z3.sat:
-                r, m = "sat", s.model()
-                break
-            if res == z3.unsat:
+                r, m = "sat", Z3Model(s.model())
+            elif res == z3.unsat:
                 r, m = "unsat", None
+            if r != "unknown":
+                if k == 0 and seed != "cvc5":
+                    self.cvc5_streak = 0
                 break
-        else:
-            if locals().get("cvc5_sat"):
-                r, m = "sat", None
         dt = time.time() - t0
         self.stats["solver_s"] += dt
         if r == "unknown":
@@ -125,22 +237,38 @@ class Engine:
         return r, m
 
     @staticmethod
-    def _cvc5(assertions, to_s):
+    def _cvc5(assertions, to_s, want_model=True):
         s2 = z3.Solver()
         s2.add(*assertions)
         fd, name = tempfile.mkstemp(suffix=".smt2", prefix="symcurie-")
         try:
+            body = s2.to_smt2()
+            vars_ = free_vars(assertions) if want_model else {}
+            vars_ = {n: v for n, v in vars_.items() if v.sort() in (z3.StringSort(), z3.IntSort(), z3.BoolSort())}
+            if vars_:
+                names = " ".join(f"|{n}|" if not n.replace("_", "a").isalnum() else n for n in vars_)
+                body += f"(get-value ({names}))\n"
             with os.fdopen(fd, "w") as f:
-                f.write("(set-logic QF_SLIA)\n" + s2.to_smt2())
+                f.write("(set-logic QF_SLIA)\n(set-option :produce-models true)\n" + body)
             try:
                 p = subprocess.run([CVC5, "--strings-exp", f"--tlimit={int(to_s * 1000)}", name],
                                    capture_output=True, text=True, timeout=to_s + 5)
             except (OSError, subprocess.TimeoutExpired):
-                return "unknown"
+                return "unknown", None
             out = p.stdout.strip()
-            if "(error" in out or "(error" in p.stderr:
-                return "unknown"
-            return out if out in ("sat", "unsat") else "unknown"
+            first = out.split("\n", 1)[0].strip()
+            if first == "unsat":
+                return "unsat", None
+            if first == "sat":
+                rest = out.split("\n", 1)[1] if "\n" in out else ""
+                if "(error" in rest or "(error" in p.stderr:
+                    return "sat", None
+                try:
+                    vals = parse_get_value(rest, vars_) if vars_ else {}
+                except Exception:  # noqa: BLE001 - unparsable model: keep the verdict, drop the model
+                    return "sat", None
+                return "sat", vals
+            return "unknown", None
         finally:
             try:
                 os.unlink(name)
@@ -203,15 +331,7 @@ class Engine:
     def _model_says(self, cond):
         if self.model is None:
             return None
-        try:
-            v = z3.simplify(self.model.eval(cond, model_completion=True))
-        except z3.Z3Exception:
-            return None
-        if z3.is_true(v):
-            return True
-        if z3.is_false(v):
-            return False
-        return None
+        return self.model.says(cond)
 
     # ---------------------------------------------------------------- assumptions, branches, obligations
     def _record(self, cond, val):
@@ -332,11 +452,7 @@ class Engine:
     def _model_ok(self):
         """The carried model really satisfies the whole path condition (evaluation only)."""
         for c in self.pc:
-            try:
-                if not z3.is_true(z3.simplify(self.model.eval(c, model_completion=True))):
-                    self.model = None
-                    return False
-            except z3.Z3Exception:
+            if self.model.says(c) is not True:
                 self.model = None
                 return False
         return True
@@ -433,19 +549,16 @@ class Engine:
             [],
         ]
         for extra in attempts:
-            s = z3.Solver()
-            s.set("timeout", 10000)
-            s.add(*base, *extra, *blocks)
-            if s.check() == z3.sat:
-                m = s.model()
+            r, m = self._solve(base + list(extra) + blocks)
+            if r == "sat" and m is not None:
                 out = {}
                 for n, sort in self.inputs.items():
                     if sort == "str":
-                        out[n] = z3str_to_py(m.eval(z3.String(n), model_completion=True))
+                        out[n] = z3str_to_py(m.value(z3.String(n)))
                     elif sort == "int":
-                        out[n] = m.eval(z3.Int(n), model_completion=True).as_long()
+                        out[n] = m.value(z3.Int(n)).as_long()
                     else:
-                        out[n] = z3.is_true(m.eval(z3.Bool(n), model_completion=True))
+                        out[n] = z3.is_true(m.value(z3.Bool(n)))
                 return out
         return None
 
